@@ -9,6 +9,19 @@ AX_R = ('axioms: the three real-number axioms of the Coq standard library (Class
         'sig_forall_dec, FunctionalExtensionality.functional_extensionality_dep) where Reals are used; ')
 
 CHECKS = {
+    'C12': dict(
+        technique='Coq proof over R (field/nsatz/ring, conversion check of the inlined definitions against the composition of their parts) about MT33_MT6, MT6_MT33, GD_E, E_GD, Tape_MT33, Tape_MT6, SDR_TNP, FP_SDR translated from moment_tensor_conversion.py on every run',
+        text='Theorems in coq/Props/C12.v about the regenerated definitions: six-vector -> 3x3 -> six-vector and 3x3 -> six-vector -> 3x3 '
+             'return the normalised original for every vector/symmetric tensor; the generated Tape_MT33/Tape_MT6 are, by the kernel\'s '
+             'conversion check, eigenvalues(GD_E) rotated by the axes of (strike, acos h, slip), symmetric with unit norm for every '
+             'parameter value; E_GD(GD_E(gamma, delta)) = (gamma, delta) on the whole open lune; strike/dip/slip are recovered exactly '
+             'from the normal/slip frame; produced parameters lie in their documented ranges for any eigenvalues and axes; '
+             'double-couples map to (0, 0). The unit tests compare one tensor with stored numbers.',
+        note=AX_R + 'numpy.linalg.eig/eigh is external, so the end-to-end round trips (tensor -> parameters -> tensor and back, nodal-plane '
+             'switch for |slip| > pi/2, batched MT6_Tape / Tape_MT6 / output_convert) are theorems only piecewise and are judged '
+             'end-to-end on the implementation for every source class and every face of the parameter domain; h -> dip uses acos '
+             'whose range facts are used only through sin^2 + cos^2 = 1.',
+        design='6 C12'),
     'C13': dict(
         technique='Coq proof over R (nsatz modulo sin^2+cos^2=1, atan2 polar-inverse lemma, numpy.mod lemmas) about SDR_TNP, SDR_FP, TP_FP and FP_SDR translated from moment_tensor_conversion.py on every run',
         text='Theorems in coq/Props/C13.v about the regenerated definitions: for every strike, dip and rake the T/N/P axes are orthonormal; '
